@@ -37,6 +37,8 @@ SPEC = {
     'exhaustive': True,
 }
 
+SPEC['explanation'] += ' T11.replace: update() never delegates to the adding bulk operations (update_extend / extend).'
+SPEC['decided'] += ['update does not delegate to adding siblings']
 MANIFEST = {
     'technique': 'paired-effect (lock-step) analysis over all feasible CFG paths with inlined helpers; MRO override closure; one-pass (consumption count) dataflow; copy-protocol and discarded-result rules',
     'text': ('Decides the structural half of C01 for every path of every method of both OMD copies: the per-key value '
